@@ -38,6 +38,7 @@ def step (s : DState) (line : String) : DState × String :=
   | "diam" :: t => (s, diamOp t)
   | "recbytes" :: t => (s, recberOp t)
   | "recguard" :: t => (s, recguardOp t)
+  | "recopen" :: t => (s, recopenOp t)
   | "abmfjudge" :: t => (s, abmfJudge t)
   | "rfjudge" :: t => (s, rfJudge t)
   | _ => (s, "bad-op")
